@@ -12,8 +12,8 @@ Driver for C20: the executable model of /repo/bin (TdModel.Model.Bin), one reque
 
 kinds: u32 id i32 u64 i64 i53 f64 bool i128 i256 bytes str vec
 -/
-import TdModel.Model.Bin
-open TdModel TdModel.Bin
+import TdModel.Model.C20
+open TdModel TdModel.Bin TdModel.C20
 
 def nib (c : UInt8) : Option Nat :=
   if 48 ≤ c ∧ c ≤ 57 then some (c.toNat - 48)
@@ -63,8 +63,8 @@ def encKind (k v : String) : Option Bytes :=
   | "bool" => if v == "1" then some (putBool true) else if v == "0" then some (putBool false) else none
   | "i128" => (ofHexFast v).map putInt128
   | "i256" => (ofHexFast v).map putInt256
-  | "bytes" => (ofHexFast v).map putBytes
-  | "str" => (ofHexFast v).map putString
+  | "bytes" => (ofHexFast v).bind (putBytesG encB)   -- assembled from the regenerated pieces
+  | "str" => (ofHexFast v).bind (putBytesG encS)
   | "vec" => v.toInt?.map (fun n => putVectorHeader (ofInt32 n))
   | _ => none
 
@@ -91,6 +91,25 @@ def decKind (k : String) (b : Bytes) : Option (Out (String × Bytes)) :=
   | "vec" => some (m (getVectorHeaderP b) toString)
   | _ => none
 
+/-- The decoder assembled from regenerated pieces must agree with the panic-explicit transliteration
+(a theorem; checked again at run time so that the regenerated facts are exercised by the driver). -/
+def agree {α : Type} [BEq α] (p : Out (α × Bytes)) (g : Res α) : Bool :=
+  match p, g with
+  | .ok (a, r), .ok (a', r') => a == a' && r == r'
+  | .err e, .error e' => e == e'
+  | _, _ => false
+
+def regenOK (k : String) (b : Bytes) : Bool :=
+  match k with
+  | "u32" | "id" => agree (getU32P b) (getU32G b)
+  | "u64" | "f64" => agree (getU64P b) (getU64G b)
+  | "bytes" => agree (getBytesP b) (getBytesG false b)
+  | "str" => agree (getBytesP b) (getBytesG true b)
+  | "vec" => agree (getVectorHeaderP b) (getVectorHeaderG b)
+  | "i128" => agree (getNP int128Size b) (getNG int128Size b)
+  | "i256" => agree (getNP int256Size b) (getNG int256Size b)
+  | _ => true
+
 def decSeq : List String → Bytes → List String → Option String
   | [], b, acc => some (" ".intercalate (acc.reverse ++ ["|", toHexFast b]))
   | k :: ks, b, acc =>
@@ -107,7 +126,7 @@ def handle (line : String) : String :=
     | none => "bad-op"
   | ["dec", k, h] => match ofHexFast h with
     | some b => match decKind k b with
-      | some o => showOut o id
+      | some o => if regenOK k b then showOut o id else "regenerated-decoder-differs"
       | none => "bad-op"
     | none => "bad-op"
   | ["seq", ks, h] => match ofHexFast h with
